@@ -1,20 +1,29 @@
-import sys
+import os, re, sys
 from . import common as C
 
-ENGINES = {
-    "C04": ("alloc", "check"), "C12": ("alloc", "check"),
-}
+
+def engines():
+    """every vlib/<engine>.py that declares PROPERTIES = [...] serves those ids through its check(pid, argv)"""
+    res = {}
+    d = os.path.dirname(os.path.abspath(__file__))
+    for f in sorted(os.listdir(d)):
+        if f.endswith(".py") and f not in ("main.py", "common.py", "__init__.py", "registry.py"):
+            m = re.search(r"^PROPERTIES\s*=\s*\[([^\]]*)\]", open(os.path.join(d, f)).read(), re.M)
+            if m:
+                for pid in re.findall(r"C\d+", m.group(1)):
+                    res[pid] = f[:-3]
+    return res
 
 
 def main():
-    if len(sys.argv) < 2 or sys.argv[1] not in ENGINES:
-        print("usage: check <ID> [--tier quick|thorough] [--replay path]; ids:", " ".join(sorted(ENGINES)))
+    eng = engines()
+    if len(sys.argv) < 2 or sys.argv[1] not in eng:
+        print("usage: check <ID> [--tier quick|thorough] [--replay path]; ids:", " ".join(sorted(eng)))
         sys.exit(2)
     pid = sys.argv[1]
-    mod, fn = ENGINES[pid]
     import importlib
-    m = importlib.import_module("vlib." + mod)
-    C.main_guard(lambda: getattr(m, fn)(pid, sys.argv[2:]))
+    m = importlib.import_module("vlib." + eng[pid])
+    C.main_guard(lambda: m.check(pid, sys.argv[2:]))
 
 
 if __name__ == "__main__":
